@@ -3,6 +3,27 @@
 import json, glob, os, re
 V = os.path.dirname(os.path.dirname(os.path.abspath(__file__)))
 DESC = {
+ "m3-C01": ("normalizeHeaderValues drops leading empty field values", "tampering that puts an empty value in front of a signed header value (in memory or as an extra map entry in the file)", "empty-value edits were added to the C01 mutation family on reading the report, before the evaluation (K15)"),
+ "m3-C02": ("validateFallbackURL returns url.String() instead of the file's bytes", "a request URL that net/url re-serialises differently (upper-case scheme, non-ASCII, `|`, `{}`)", "missed at first by C02 (C01 caught it through bit flips in the scheme): request URLs outside the plain grammar + RefReadL; this also exposed F12"),
+ "m3-C03": ("index built from Header.Get (first field line) of Variants / Variant-Key", "b1, several variants, header given as repeated field lines", "templates with repeated field lines added on reading the report (K15)"),
+ "m3-C04": ("NewCountingWriter returns an existing CountingWriter unchanged", "destination is a CountingWriter that has already counted bytes", "destination kind `counting` added on reading the report (K15)"),
+ "m3-C05": ("b2 reader `continue`s over a 'manifest' section without advancing", "b2 file with a section named manifest followed by parsed sections", "`foreign` mutation added on reading the report (K15)"),
+ "m3-C06": ("verifier refuses an empty subset-hashes map", "a signer whose certificate covers no exchange of the bundle", "missed at first: signer s5 (covers nothing) and sequences with it were added"),
+ "m3-C07": ("built-in Ed25519 strategy: post-signing check replaced by comparing the private key's cached public half", "a private key whose halves disagree", "missed at first: histories now use the library's own strategy with a sound and an inconsistent key"),
+ "m3-C08": ("Signer caches cert-sha256, never invalidated", "one Signer object signing again after its certificate was replaced", "long-lived Signer with renewed certificate added on reading the report (K15)"),
+ "m3-C09": ("validity-url resolved against the request URL", "a relative validity-url (empty, path, query, scheme-relative)", "missed at first: relative validity URLs added to the deviation grid and to MC_SxgPolicy"),
+ "m3-C10": ("'cert' key check moved from the shared decoder to Validate()", "bundle signatures section with an authority map lacking 'cert', then NewVerifier", "missed at first by C10 (C06 caught it): structure-aware damage of signed bundles added to the totality harness"),
+ "m3-C11": ("encoder reuses a head buffer and stops filling at the first zero", "two heads on one Encoder, the later one with leading zero bytes in its argument", ""),
+ "m3-C12": ("ReadByte issues a single Read unless the source is an io.ByteReader", "a source that returns EOF with the last byte, or (0, nil)", "caught by the reader-side schedules (section 13.2), written before this change was seen"),
+ "m3-C13": ("pair-count guard multiplies by two in uint64", "a map declaring 2^63+k pairs followed by k pairs", ""),
+ "m3-C14": ("ceil idiom (len-1)/rs+1 in Encode", "draft 02, empty payload, record size 1 (panic)", "the encoder call is now run under recover so that a panic is a verdict, not a harness crash"),
+ "m3-C15": ("record-size limit check adds 32 in uint64", "record size field 2^64-32..2^64-1", ""),
+ "m3-C16": ("unpadded base64 decoded with the URL alphabet", "byte sequence without padding, length not a multiple of 4, containing + or /", ""),
+ "m3-C17": ("EncodeTo returns early without OCSP", "SCT list on a non-leaf certificate", ""),
+ "m3-C18": ("header names folded by lower-casing over a Go map", "header map with names differing only in letter case", "missed at first: such a map added to the purity histories (the output of a failed call is its error, K12)"),
+ "m3-C19": ("one-entry fast path in EncodeMap drops the value write error", "fault inside the value of a one-entry map written last (2-certificate chain, status-only header dump)", ""),
+ "m3-C20": ("same slip as m2-C03, reached through gen-bundle -headerOverride", "b1, -headerOverride 'Variants: ...' with two possible keys", "`-headerOverride` pipelines added on reading the report (K15); C03 catches it at library level"),
+
  "m2-C01": ("expires compared through Unix(): accepted up to expires + 1 s when the instant has a sub-second part", "verification instant in (expires, expires+1s)", ""),
  "m2-C02": ("b1 reader refuses Signature > 16384 / header block > 524288 although the limits are inclusive", "a b1 exchange exactly at a limit", ""),
  "m2-C03": ("b1 index: a URL with one response and a Variants header gets a non-empty variants-value", "b1, single-response URL carrying Variants/Variant-Key", ""),
